@@ -84,6 +84,9 @@ def _more_hand_made(P: Any) -> list[tuple[str, list[Any], list[list[Any]], list[
     # a call of an earlier label (recursion) that is followed by a jump
     sets.append(("call-back-then-jump", [inf("GENERIC")], [[
         o(0, "hm_a", []), o(1, "Call", [0]), o(2, "Jump", [4]), o(3, "hm_b", []), o(4, "End", [])]], [None]))
+    # two loops that consist of tests only and share their ops; the routine never ends
+    sets.append(("test-only-loops-sharing-ops", [inf("GENERIC")], [[
+        o(0, "Jump", [2]), o(1, "Branch", [V("$A"), 1, 1]), o(2, "Branch", [V("$B"), 1, 1]), o(3, "Jump", [1])]], [None]))
     sets.append(("irreducible-loop-through-first-op", [inf("GENERIC")], [[
         o(0, "hm_top", []), o(1, "Branch", [V("$A"), 1, 4]), o(2, "hm_x", []), o(3, "Jump", [5]), o(4, "hm_y", []), o(5, "hm_z", []), o(6, "Branch", [V("$B"), 2, 4]),
         o(7, "Branch", [V("$C"), 3, 0]), o(8, "Jump", [2])]], [None]))
